@@ -366,3 +366,43 @@ Fixpoint sometime_seen (P : problem) (phi : expr) (s : state) (pi : list (N * li
 Definition tcr_fresh1 (smp : expr -> expr) (fk : N) (P : problem) (phi : expr) : bool :=
   forallb (fun ia => action_cleanf fk (snd ia) && cleanf fk (R smp (snd ia) phi)) (p_actions P) &&
   forallb (cleanf fk) (p_invs P ++ bound_invs P) && forallb (cleanf fk) (p_goals P) && cleanf fk phi.
+
+(* ------------------------------------------------------------------ the specification for one `at-most-once` constraint *)
+(* [m] = phi held in some state up to s (s included).  Every step s -> t of the plan (in the original problem) passes the
+   at-most-once check: phi does not hold in t, or it never held before, or it still holds in s (t continues the one
+   interval).  With m = "phi holds in s0" this is SimCheck.mon_amo on the visited states (mrun_amo / mverdict_spec). *)
+Fixpoint amo_chk (P : problem) (phi : expr) (m : bool) (s : state) (pi : list (N * list value)) : bool :=
+  match pi with
+  | [] => true
+  | (aid, args) :: r =>
+      match lookup_action P aid with
+      | Some a =>
+          match spec_step false P s a args with
+          | Some t =>
+              (negb (holds false (mk_interp P t []) phi) || negb m || holds false (mk_interp P s []) phi) &&
+              amo_chk P phi (m || holds false (mk_interp P t []) phi) t r
+          | None => true
+          end
+      | None => true
+      end
+  end.
+
+(* ------------------------------------------------------------------ the specification for one `sometime-before` constraint *)
+(* [m] = psi held in some state up to s (s included).  Every step s -> t of the plan passes the sometime-before check:
+   phi does not hold in t, or psi held in some state strictly before t.  With m = "psi holds in s0" and phi false in s0
+   this is SimCheck.mon_sb on the visited states (mrun_sb / mverdict_spec). *)
+Fixpoint sb_chk (P : problem) (phi psi : expr) (m : bool) (s : state) (pi : list (N * list value)) : bool :=
+  match pi with
+  | [] => true
+  | (aid, args) :: r =>
+      match lookup_action P aid with
+      | Some a =>
+          match spec_step false P s a args with
+          | Some t =>
+              (negb (holds false (mk_interp P t []) phi) || m) &&
+              sb_chk P phi psi (m || holds false (mk_interp P t []) psi) t r
+          | None => true
+          end
+      | None => true
+      end
+  end.
